@@ -4,3 +4,4 @@ import NTV.Proofs.C15
 #print axioms NTV.C15.index_multiplicative
 #print axioms NTV.C15.discriminant_index_relation
 #print axioms NTV.C15.index_of_unimodular_rebasing
+#print axioms NTV.C15.equal_modules_give_equal_orders
